@@ -342,6 +342,12 @@ class HTTPRequestParser:
             if connection.lower() == "close":
                 self.connection_close = True
 
+        if version != "1.1" and "TRANSFER_ENCODING" in headers:
+            # RFC9112 states that a Transfer-Encoding on a request that is not
+            # HTTP/1.1 means the framing is faulty: the connection has to be
+            # closed after this message.
+            self.connection_close = True
+
         if not self.chunked:
             cl = headers.get("CONTENT_LENGTH", "0")
 
